@@ -12,6 +12,7 @@ package main
 import (
 	"bytes"
 	"compress/gzip"
+	"encoding/json"
 	"fmt"
 	"io"
 	"net/http"
@@ -326,10 +327,113 @@ func plumbingS3Put(w []string) (res string) {
 	return fmt.Sprintf("bucket=%s prefix=%s puts=%d bodies=%s lsns=%s", hexs(bucket), strings.Join(pf, "|"), len(puts), bodies, strings.Join(lsns, ","))
 }
 
+// plumbing kinput <pmethod> <nbatches>: the Kinesis sink end to end as its factories build it - option map →
+// kinesis.NewBatchFactory / kinesis.New → the real AWS SDK client → HTTP (a local server answers PutRecords with
+// success for every record). Batch i has two records with LSNs 1000·i and 1000·i+1 and partition key "pk<i>".
+// Observed: the stream every call names, the records' data in order, and the Kinesis partition key of every record.
+func plumbingKinPut(w []string) (res string) {
+	defer func() {
+		if r := recover(); r != nil {
+			res = fmt.Sprintf("panic %v", r)
+		}
+	}()
+	pm := partitioner.GetPartitionMethod(w[2])
+	n, _ := strconv.Atoi(w[3])
+	type rec struct {
+		Data         []byte
+		PartitionKey string
+	}
+	type req struct {
+		StreamName string
+		Records    []rec
+	}
+	var mu sync.Mutex
+	var calls []req
+	srv := httptest.NewServer(http.HandlerFunc(func(rw http.ResponseWriter, r *http.Request) {
+		b, _ := io.ReadAll(r.Body)
+		var q req
+		json.Unmarshal(b, &q)
+		if strings.HasSuffix(r.Header.Get("X-Amz-Target"), ".PutRecords") {
+			mu.Lock()
+			calls = append(calls, q)
+			mu.Unlock()
+		}
+		out := []string{}
+		for i := range q.Records {
+			out = append(out, fmt.Sprintf("{\"SequenceNumber\":\"%d\",\"ShardId\":\"shardId-000000000000\"}", i+1))
+		}
+		rw.Header().Set("Content-Type", "application/x-amz-json-1.1")
+		rw.WriteHeader(200)
+		fmt.Fprintf(rw, "{\"FailedRecordCount\":0,\"Records\":[%s]}", strings.Join(out, ","))
+	}))
+	defer srv.Close()
+	cfg := map[string]interface{}{tkinesis.ConfVarStreamName: "verif-stream", tkinesis.ConfVarAwsRegion: "us-east-1",
+		tkinesis.ConfVarAwsAccessKeyId: "k", tkinesis.ConfVarAwsSecretAccessKey: "s", tkinesis.ConfVarEndpoint: srv.URL,
+		config.VAR_NAME_WORKERS: 1, config.VAR_NAME_PARTITION_METHOD: pm}
+	sh := shutdown.NewShutdownHandler()
+	in := make(chan transport.Batch)
+	written := make(chan *ordered_map.OrderedMap, 64)
+	statsChan := make(chan stats.Stat, 4096)
+	bf := tkinesis.NewBatchFactory(cfg)
+	ts := tkinesis.New(sh, written, statsChan, 1, []<-chan transport.Batch{in}, cfg)
+	done := make(chan struct{})
+	go func() { defer close(done); (*ts[0]).StartTransporting() }()
+	for i := 1; i <= n; i++ {
+		pk := fmt.Sprintf("pk%d", i)
+		if pm == partitioner.PART_METHOD_NONE {
+			pk = ""
+		}
+		b := bf.NewBatch(pk)
+		for j := 0; j < 2; j++ {
+			b.Add(&marshaller.MarshalledMessage{Operation: "INSERT", Table: "public.t", Json: []byte(fmt.Sprintf("{\"b\":%d,\"r\":%d}", i, j)),
+				TimeBasedKey: fmt.Sprintf("%d-1", i), Transaction: strconv.Itoa(i), WalStart: uint64(1000*i + j), PartitionKey: pk})
+		}
+		select {
+		case in <- b:
+		case <-time.After(5 * time.Second):
+			sh.CancelFunc()
+			return "hang feeding"
+		}
+		select {
+		case <-written:
+		case <-time.After(10 * time.Second):
+			sh.CancelFunc()
+			return fmt.Sprintf("batch %d not reported written", i)
+		}
+	}
+	sh.CancelFunc()
+	close(in)
+	select {
+	case <-done:
+	case <-time.After(3 * time.Second):
+	}
+	mu.Lock()
+	defer mu.Unlock()
+	streams := map[string]bool{}
+	data, keys := []string{}, []string{}
+	for _, c := range calls {
+		streams[c.StreamName] = true
+		for _, r := range c.Records {
+			data = append(data, string(r.Data))
+			keys = append(keys, r.PartitionKey)
+		}
+	}
+	sl := []string{}
+	for k := range streams {
+		sl = append(sl, k)
+	}
+	sortStrings(sl)
+	return fmt.Sprintf("stream=%s calls=%d data=%s keys=%s", strings.Join(sl, "|"), len(calls), hexs(strings.Join(data, ";")), strings.Join(keys, ","))
+}
+
 func plumbingRun(c Case) ([]string, []string) {
 	outs := []string{}
 	for _, l := range c.Lines {
 		w := strings.Fields(l)
+		if len(w) == 4 && w[1] == "kinput" {
+			outs = append(outs, plumbingKinPut(w))
+			continue
+		}
 		if len(w) == 5 && w[1] == "s3put" {
 			outs = append(outs, plumbingS3Put(w))
 			continue
@@ -360,6 +464,9 @@ func plumbingGen(r *Rng, tier string) Case {
 	ls := "-"
 	if len(list) > 0 {
 		ls = strings.Join(list, ",")
+	}
+	if r.Chance(10) {
+		return Case{[]string{fmt.Sprintf("plumbing kinput %s %d", Pick(r, []string{"none", "tablename", "transaction", "transaction-bucket"}), r.Range(1, 5))}}
 	}
 	if r.Chance(12) {
 		// no INNER double slash: the AWS SDK's REST URI cleaning collapses it on the wire ("a//b/…" is stored as "a/b/…"),
@@ -398,6 +505,13 @@ func plumbingMonitor(lines, outs []string, m *Model) []Violation {
 		}
 		if strings.HasPrefix(outs[i], "panic") {
 			vs = append(vs, Violation{"C17", "app.New panics on a configuration main.go accepts: " + l + " => " + outs[i], ""})
+			continue
+		}
+		if strings.HasPrefix(l, "plumbing kinput") {
+			if want != outs[i] {
+				vs = append(vs, Violation{"C11", "the Kinesis sink as its factories build it (options → batch factory, kinesis.New → AWS SDK → HTTP): written batches do not correspond to accepted PutRecords calls on the configured stream: wanted " + want + ", observed " + outs[i] + " (" + l + ")", ""})
+				vs = append(vs, Violation{"C06", "a Kinesis record does not carry the partition key its partition method dictates: wanted " + want + ", observed " + outs[i] + " (" + l + ")", ""})
+			}
 			continue
 		}
 		if strings.HasPrefix(l, "plumbing s3put") {
